@@ -3,6 +3,7 @@ package main
 import (
 	"encoding/json"
 	"math"
+	"sort"
 
 	"github.com/smart-core-os/sc-api/go/traits"
 	"github.com/smart-core-os/sc-golang/pkg/resource"
@@ -139,6 +140,8 @@ type vendObs struct {
 	Err    string    `json:"err"`
 	Fwd    int64     `json:"fwd"`
 	Back   int64     `json:"back"`
+	Finite bool      `json:"finite"` // Convert: both results are finite numbers
+	Units  []string  `json:"units"`  // New: the names of every value of the unit enum
 	Panic  string    `json:"panic"`
 	RPanic string    `json:"rpanic"`
 }
@@ -149,7 +152,7 @@ func runVending(raw json.RawMessage, out *hx.Out) {
 	w := decode[vendWalk](raw)
 	blank := absStock{Used: noQ, Remaining: noQ}
 	o := vendObs{Model: "vending", Walk: w.N, Op: "New", Via: w.Cfg.Via, Q: plainQ{Unit: "NO_UNIT"}, Unit2: "NO_UNIT",
-		Stock: blank, Ret: optStockOf(nil), Err: "OK",
+		Stock: blank, Ret: optStockOf(nil), Err: "OK", Finite: true,
 		Pre:  vendState{Inv: w.Cfg.Stocks, Cons: w.Cfg.Cons},
 		Post: vendState{Inv: []absStock{}, Cons: []string{}}}
 	if o.Pre.Inv == nil {
@@ -158,6 +161,10 @@ func runVending(raw json.RawMessage, out *hx.Out) {
 	if o.Pre.Cons == nil {
 		o.Pre.Cons = []string{}
 	}
+	for v := range traits.Consumable_Unit_name {
+		o.Units = append(o.Units, traits.Consumable_Unit(v).String())
+	}
+	sort.Strings(o.Units)
 	var m *vendingpb.Model
 	o.Panic = hx.Catch(func() {
 		var opts []resource.Option
@@ -187,7 +194,7 @@ func runVending(raw json.RawMessage, out *hx.Out) {
 	}
 	for i, op := range w.Ops {
 		o := vendObs{Model: "vending", Walk: w.N, Step: i + 1, Op: op.Op, Via: w.Cfg.Via, Name: op.Name, Q: op.Q,
-			Unit2: op.Unit2, Stock: op.Stock, Ret: optStockOf(nil), Err: "OK"}
+			Unit2: op.Unit2, Stock: op.Stock, Ret: optStockOf(nil), Err: "OK", Finite: true, Units: []string{}}
 		o.Pre, o.RPanic = vendRead(m)
 		if o.RPanic != "" {
 			o.Post = o.Pre
@@ -217,6 +224,7 @@ func runVending(raw json.RawMessage, out *hx.Out) {
 						o.Err = "back:" + hx.Code(err2)
 					}
 					o.Back = milli(r2)
+					o.Finite = !math.IsNaN(r1) && !math.IsInf(r1, 0) && !math.IsNaN(r2) && !math.IsInf(r2, 0)
 				}
 			default:
 				hx.Fatal("vending: unknown op %q", op.Op)
